@@ -136,6 +136,17 @@ CLAIMED['C16'] = (
     'the digests themselves are uninterpreted (S-hash); known_hosts base64 is decided on concrete blobs only (base64 of '
     'a symbolic blob is realised value by value); that parsing delivers the wire names in wire order is C07', '5 C16')
 
+CLAIMED['C08'] = (
+    'key tag: the real DnsRecordDnskey.key_tag over a symbolic RDATA of every length 4..12 (16 thorough) equals RFC 4034 '
+    'Appendix B, and the B.1 rule for algorithm 1 over every modulus < 2^40; layouts against an independent encoder '
+    '(symcheck/refs/dns_ref.py): DNSKEY RSA (RFC 3110 exponent-length form, symbolic exponent and modulus, every named '
+    'flag subset), ECDSA P-256/P-384 coordinates with leading zeros, Ed25519, DS (every algorithm / digest type / tag), '
+    'RRSIG (every defined and private type covered, labels, TTL, key tag, 32-bit timestamps), MX, TXT, names; native '
+    'side condition with the real PublicKey for the RFC 6605 / 8080 key sizes',
+    'S-key container for PublicKey (key_size modelled as the modulus length); S-dt integer instants for RRSIG '
+    'timestamps (compose side natively); RSA modulus 4 bytes (quick) / up to 6 (thorough); IDNA beyond ASCII outside',
+    '5 C08')
+
 NOT_APPLICABLE = {
     'C19': 'asymptotic claim (work linear in input size for n, 2n, 4n, ...): a bounded symbolic execution fixes the '
            'input size, so a pass says nothing about growth; the total-work bound needs an amortised argument over '
